@@ -201,8 +201,17 @@ def skeleton_part(run, tier):
                 if t_:
                     sqls.append((t_, 'production pair %s <- %s' % (str(p).split('  [')[0], str(cp).split('  [')[0])))
                     n_pair += 1
+        # ... and every (parent production, PARENTHESISED child production) triple: what user-written parentheses keep apart
+        n_par = 0
+        for i, p in enumerate(dv.prods):
+            for j, wp, cp, tree in dv.paren_trees(p):
+                t_ = c02u2.node_sentence(d, tree, c02u2.VOCAB[0])
+                if t_:
+                    sqls.append((t_, 'production %s <- ( %s )' % (str(p).split('  [')[0], str(cp).split('  [')[0])))
+                    n_par += 1
         run.extra['alternative_derivation_sentences_%s' % d] = n_alt
         run.extra['production_pair_sentences_%s' % d] = n_pair
+        run.extra['parenthesised_child_sentences_%s' % d] = n_par
         seen, n_ok, n_skip, n_bad, prods = set(), 0, 0, 0, set()
         for sql, origin in sqls:
             if sql in seen:
@@ -263,6 +272,12 @@ def skeleton_part(run, tier):
                     key = 'roundtrip:printer:%s:%s:parenthesised-set-operation-as-subquery' % (d, type(a).__name__)
                 elif type(a).__name__ == 'CreateTable' and s1 is not None and re.search(r'(UNION|EXCEPT|INTERSECT)', s1) and problem.startswith('re-parse raises'):
                     key = 'roundtrip:printer:%s:CreateTable:parenthesised-set-operation-as-subquery' % d
+                elif s1 is not None and problem.startswith('re-parse raises') and re.search(r'\bOFFSET\b', s1) and not re.search(r'\bLIMIT\b', s1) \
+                        and type(a).__name__ in ('Select', 'Union', 'Intersect', 'Except'):
+                    # OFFSET without LIMIT: accepted in some positions, but the printed `.. OFFSET n` directly after a select list / table is not
+                    key = 'roundtrip:printer:%s:%s:offset-without-limit-not-reparsable' % (d, type(a).__name__)
+                elif s1 is not None and d == 'mindsdb' and re.search(r'FROM \( EVALUATE\b', ' '.join(sql.split())) and problem.startswith('re-parse raises'):
+                    key = 'roundtrip:printer:mindsdb:Select:evaluate-as-from-subquery'
                 elif type(a).__name__ == 'Show':
                     # the Show printer (one get_string for ~40 SHOW forms): category words, names and IN / FROM / LIKE / WHERE modifiers
                     key = 'roundtrip:printer:%s:Show:%s' % (d, problem.split(':')[0].replace(' ', '-'))
